@@ -24,25 +24,31 @@ def build(chk, configs=('rel', 'dbg', 'bmi')):
     exes = {}
     disabled = []
     with core.Lock('harness'):
+        import concurrent.futures
         extra = []
         first_log = None
-        for cfg in configs:
-            exe, log = core.build_harness('h_layout', SRC, cfg, extra=extra)
-            if not exe and not extra:
-                # find out which feature breaks the build: try the fallbacks cumulatively
-                first_log = log
-                for name, flag in FALLBACKS:
-                    extra = extra + [flag]
-                    exe, log2 = core.build_harness('h_layout', SRC, cfg, extra=extra)
-                    disabled.append((name, flag))
-                    if exe:
-                        break
-            if exe:
-                exes[cfg] = exe
-            else:
-                chk.violation('layout harness does not compile', f'storage-order layers no longer compile ({cfg})',
-                              {'compiler_output': (first_log or log)[-4000:]})
-                break
+        # probe with the cheapest configuration which features compile, then build all configurations in parallel
+        exe, log = core.build_harness('h_layout', SRC, configs[0], extra=extra)
+        if not exe:
+            first_log = log
+            for name, flag in FALLBACKS:
+                extra = extra + [flag]
+                exe, log2 = core.build_harness('h_layout', SRC, configs[0], extra=extra)
+                disabled.append((name, flag))
+                if exe:
+                    break
+        if exe:
+            exes[configs[0]] = exe
+            with concurrent.futures.ThreadPoolExecutor(max_workers=4) as ex:
+                for cfg, (e2, l2) in zip(configs[1:], ex.map(lambda c: core.build_harness('h_layout', SRC, c, extra=extra), configs[1:])):
+                    if e2:
+                        exes[cfg] = e2
+                    else:
+                        chk.violation('layout harness does not compile (' + cfg + ')', f'storage-order layers no longer compile in configuration {cfg}',
+                                      {'compiler_output': l2[-4000:]})
+        else:
+            chk.violation('layout harness does not compile', 'storage-order layers no longer compile',
+                          {'compiler_output': (first_log or log)[-4000:]})
     dis = []
     if disabled:
         errs = [l for l in (first_log or '').split('\n') if 'error' in l][:6]
